@@ -146,6 +146,16 @@ def __setitem__(self, indx, arg):
     # Convert the argument to this type
     arg = self.as_this_type(arg, recursive=True)
 
+    # Check the derivatives before anything is changed
+    for key, arg_deriv in arg._derivs_.items():
+        if (key in self._derivs_
+            and self._derivs_[key]._denom_ != arg_deriv._denom_):
+                raise ValueError('denominator mismatch for derivative "%s" in '
+                                 '%s item assignment: %s, %s'
+                                 % (key, type(self).__name__,
+                                    self._derivs_[key]._denom_,
+                                    arg_deriv._denom_))
+
     # Create the values index
     if has_ellipsis and self._rank_:
         vals_index = pre_index + self._rank_ * (slice(None),)
@@ -164,61 +174,43 @@ def __setitem__(self, indx, arg):
         else:
             self._mask_ = np.zeros(self._shape_, dtype=np.bool_)
 
-    # Create a view of the arg with array-indexed axes moved to front
-    if moved_to_front:
-        rank = len(array_shape)
-        arg_rank = len(arg._shape_)
-        if first_array_loc > arg_rank:
-            moved_to_front = False          # arg rank does not reach array loc
-        if first_array_loc + rank > arg_rank:
-            after = np.arange(first_array_loc, arg_rank)
-            before = tuple(after - first_array_loc)
-            after = tuple(after)
-        else:
-            before = np.arange(rank)
-            after = tuple(before + first_array_loc)
-            before = tuple(before)
-
-    if moved_to_front:
-        arg_values = np.moveaxis(arg._values_, after, before)
-        if np.shape(arg._mask_):
-            arg_mask = np.moveaxis(arg._mask_, after, before)
-    else:
-        arg_values = arg._values_
-        arg_mask = arg._mask_
-
     # Set the new values and mask
-    if not np.any(post_mask):                # post-mask is False
+    if not moved_to_front and not np.any(post_mask):    # the simple case
 
-        self._values_[vals_index] = arg_values
+        self._values_[vals_index] = arg._values_
         if np.shape(self._mask_):
             self._mask_ = self._mask_.copy() # copy; it might be shared
-            self._mask_[pre_index] = arg_mask
+            self._mask_[pre_index] = arg._mask_
 
-    else:                                    # post-mask is an array
+    else:
+
+        # Identify the element of this object selected by each element of the
+        # indexed result, with the array-indexed axes where this class puts them
+        where = np.arange(self._size_).reshape(self._shape_)[pre_index]
+        if moved_to_front:
+            before = tuple(range(len(array_shape)))
+            after = tuple(k + first_array_loc for k in before)
+            where = np.moveaxis(where, before, after)
 
         # antimask is False wherever the index is masked
-        antimask = np.logical_not(post_mask)
-
-        selection = self._values_[vals_index]
-
-        if np.shape(arg_values):
-            selection[antimask] = arg_values[antimask]
+        if np.shape(post_mask):
+            trail = where.ndim - first_array_loc - len(array_shape)
+            post_mask = np.broadcast_to(post_mask, array_shape)
+            post_mask = post_mask.reshape(first_array_loc * (1,) + array_shape
+                                          + trail * (1,))
+            antimask = np.logical_not(np.broadcast_to(post_mask, where.shape))
         else:
-            selection[antimask] = arg_values
+            antimask = np.ones(where.shape, dtype=np.bool_)
 
-        self._values_[vals_index] = selection
+        # Write only the elements selected by unmasked index values
+        selected = np.unravel_index(where[antimask], self._shape_)
+        arg_values = np.broadcast_to(arg._values_, where.shape + self._item_)
+        arg_mask = np.broadcast_to(arg._mask_, where.shape)
 
+        self._values_[selected] = arg_values[antimask]
         if np.shape(self._mask_):
-            selection = self._mask_[pre_index]
-
-            if np.shape(arg_mask):
-                selection[antimask] = arg_mask[antimask]
-            else:
-                selection[antimask] = arg_mask
-
-            self._mask_ = self._mask_.copy()    # copy; it might be shared
-            self._mask_[pre_index] = selection
+            self._mask_ = self._mask_.copy() # copy; it might be shared
+            self._mask_[selected] = arg_mask[antimask]
 
     self._cache_.clear()
 
